@@ -684,3 +684,13 @@ Proof.
   unfold ctr_fn, mapi. rewrite map2_mapi_from. generalize 0 at 1 2. induction (fst b) as [|xs l IH]; intros i; [reflexivity|].
   cbn [mapi_from]. rewrite IH. unfold ctr_ratio. rewrite wdot_spec, wtotal_spec. reflexivity.
 Qed.
+
+(* WeightedCalibration.compute() (after fixes 7c618c5, ae13937): unless nothing at all was
+   accumulated, each task reports its own IEEE quotient -- a zero-sum task no longer blanks the others *)
+Definition wc_nothing (s : nd) : bool :=
+  forallb (fun x => qeq x 0) (nlist (nget 1 s)) && forallb (fun x => qeq x 0) (nlist (nget 0 s)).
+Lemma wc_gamma_value nt s : wc_nothing s = false ->
+  wc_gamma nt s = map2 qdivx (nlist (nget 0 s)) (nlist (nget 1 s)).
+Proof. unfold wc_nothing. intros H. unfold wc_gamma. rewrite H. reflexivity. Qed.
+Lemma wc_gamma_nothing nt s : wc_nothing s = true -> wc_gamma nt s = [].
+Proof. unfold wc_nothing. intros H. unfold wc_gamma. rewrite H. reflexivity. Qed.
